@@ -5,6 +5,7 @@ func init() {
 		ID: "C06", Title: "TypedValue/TypedStore are transparent, error-faithful typed views", Level: "fault_enumeration",
 		Subs: []Sub{
 			{Pkg: "typed", Harness: "valueseq", Weight: 3, Native: true},
+			{Pkg: "typed", Harness: "valueseq", Config: "ref", Weight: 2, Native: true, Note: "TypedValue[*cell]: compute functions update the object they were handed in place (and then succeed, fail or meet an injected fault); the value 0 encodes to zero bytes"},
 			{Pkg: "typed", Harness: "storeseq", Weight: 2, Native: true},
 			{Pkg: "typed", Harness: "valueconc", Weight: 2},
 			{Pkg: "typed", Harness: "valueconc", Config: "faults", Weight: 1},
